@@ -3,7 +3,8 @@ import GrpcModel.Model.ClusterRefs
 /-!
 component `s_clusterrefs` (C51, tie T2): the real xDS resolver + dependency manager in a synctest bubble.
 
-  rds <c,c,…>   pause   next   select <id> <c>   commit <id>
+  rds <r,r,…>   pause   next   select <id> <c>   commit <id>      (r = c | c+c'+…: clusters of one route;
+  the same cluster may occur in several routes — the resolver takes ONE reference per distinct cluster)
 
 Model side: every state change goes through `GrpcModel.ClusterRefs.step`.  The driver only keeps track
 of where the blocking callbacks sit in the resolver's serializer queue (`segs`): `pause` appends one,
@@ -56,6 +57,11 @@ def settle (d : DSt) : DSt :=
     let known := d.segs.foldl (· + ·) 0
     { d with segs := (((last + (d.m.queue.length - known)) :: revInit).reverse) }
 
+/-- `1,2+2,1` ↦ the clusters named by the routes, with repetitions: [1,2,2,1] -/
+def parseRoutes (l : String) : Option (List Nat) :=
+  if l = "-" then some [] else
+  ((l.splitOn ",").mapM fun (item : String) => (item.splitOn "+").mapM String.toNat?).map List.flatten
+
 def parseField (impl : String) (key : String) : Option String :=
   ((impl.splitOn " ").filterMap fun t => if t.startsWith key then some (t.drop key.length).toString else none).head?
 
@@ -94,7 +100,7 @@ def step (d : DSt) (fs : List String) (impl : String) : DSt × String × String 
     (d, pre ++ status d.m, monitor d impl recommit prevAct)
   match fs with
   | ["rds", l] =>
-    match natList l with
+    match parseRoutes l with
     | some cl => finish { d with m := GrpcModel.ClusterRefs.step d.m (.rds cl), lastRoute := cl } "" false
     | none => (d, "bad-op", "-")
   | ["pause"] => finish { d with segs := d.segs ++ [0] } "" false
